@@ -172,6 +172,11 @@ def autoS (fuel : Nat) (ss : SS) : SS :=
   | 0 => ss
   | n + 1 => if autoPc ss.core.pc then (match fireS ss (.core (.step true)) with | some s' => autoS n s' | none => ss) else ss
 
+/-- the harness lets the Run goroutine reach the select (it waits until that goroutine is parked in `select`) before it
+does anything else: the registration step, which lies between StateRunning and the first select, has then been executed -/
+def registerS (ss : SS) : SS :=
+  if ss.core.pc = .select ∧ ss.regDone = false then (fireS ss .register).getD ss else ss
+
 def drainStaleS (fuel : Nat) (ss : SS) : SS :=
   match fuel with
   | 0 => ss
@@ -206,7 +211,7 @@ def sigHandler : Handler DSig where
       match r with
       | none => ({ st with ss := none, why := "-".intercalate toks }, if noobs then [] else ["obs bad-op-or-label-not-enabled " ++ "-".intercalate toks])
       | some s' =>
-        let s' := drainStaleS 8 (autoS 8 s')
+        let s' := registerS (drainStaleS 8 (autoS 8 s'))
         ({ st with ss := some s' }, if noobs then [] else [showObsS s'])
   onObs := fun st toks => { st with d := handler.onObs st.d toks }
   onEnd := fun st => handler.onEnd st.d
